@@ -229,6 +229,22 @@ def run_case(case):
         if not d2 <= band:
             r.violation(f'{sig}:user-bounds-recovery:{bucket}', f'{tag}: with user bounds sup|F_fit-F_emp|={d2:.4f} > {band:.4f}',
                         case=case, params=pp)
+        # one bound at the true support, the other far away (a one-sided truncation stated with a generous other bound)
+        if w >= 1.0:
+            for which, (aa, bb) in (('far-upper', (a, b + 50.0 * w)), ('far-lower', (a - 50.0 * w, b))):
+                far = U.TruncatedGaussian(minimum=aa, maximum=bb)
+                r.tr()
+                try:
+                    far.fit(x.copy())
+                    Ff = np.asarray(far.cumulative_distribution(pts.copy()), float)
+                    r.ev(len(pts))
+                    dfar = float(np.max(np.abs(Ff - F_emp)))
+                    if not dfar <= band:
+                        r.violation(f'{sig}:user-bounds-recovery:{which}', f'{tag}: with bounds [{aa!r},{bb!r}] sup|F_fit-F_emp|='
+                                    f'{dfar:.4f} > {band:.4f}', case=case)
+                except Exception as ex:
+                    r.violation(f'{sig}:user-bounds:{which}:raises', f'{tag}: TruncatedGaussian({aa!r},{bb!r}).fit raised '
+                                f'{type(ex).__name__}: {ex}', case=case)
         # only ONE of the two bounds supplied: the other comes from the data (max + EPSILON / min - EPSILON)
         for which, kw in (('minimum-only', {'minimum': a}), ('maximum-only', {'maximum': b})):
             one = U.TruncatedGaussian(**kw)
